@@ -61,7 +61,7 @@ CHECKS = {
  "C10": dict(
    technique="model-based property testing (whitespace rules as worded vs engine, enumerated for short sequences and generated beyond) plus metamorphic testing (same program under 12 delimiter sets, line statements vs whole-line block tags)",
    level="exploration",
-   text="(a) Sequences of text and variable/block/comment/raw tags with every marker on either side are rendered under the 8 whitespace settings and compared with an independent model of the documented rules, with default delimiters and re-spelled under two custom delimiter sets (one prefix-sharing); all sequences of length <= 2 and all text-tag-text / tag-text-tag triples over a 37-symbol alphabet are enumerated. (b) Generated single-file programs whose text consists of partial and look-alike delimiters must render identically (or fail alike) with default delimiters and with each of 12 delimiter sets incl. prefix-sharing and nested-prefix ones. (c) Default-looking delimiters are verbatim text under a custom syntax; line statements/comments behave like whole-line tags.",
+   text="(a) Sequences of text and variable/block/comment/raw tags with every marker on either side are rendered under the 8 whitespace settings and compared with an independent model of the documented rules, with default delimiters and re-spelled under three custom delimiter sets (one prefix-sharing, one whose block start can overlap itself); all sequences of length <= 2 and all text-tag-text / tag-text-tag triples over a 37-symbol alphabet are enumerated. (b) Generated single-file programs whose text consists of partial and look-alike delimiters must render identically (or fail alike) with default delimiters and with each of 12 delimiter sets incl. prefix-sharing and nested-prefix ones. (c) Default-looking delimiters are verbatim text under a custom syntax; line statements/comments behave like whole-line tags.",
    note="A lone CR next to a tag is outside the model (undocumented whether it is a line boundary). (b) compares the engine with itself under two printings of the same AST; the core-fragment reference interpreter is used by C03, not here.",
    design="3/C10"),
  "C11": dict(
